@@ -458,4 +458,96 @@ def specStep (regs : List Reg) (silent : Bool) (task : Option Int) : List Event 
   if task = none ∧ ¬ silent then [.sleep]
   else invoke (specHandlers regs task) ++ [.sleep]
 
+/-! ### histories on ONE client object
+
+Nothing the client computes is cached: every observation is a function of the *current* attributes.  A session is
+what the observations can depend on: the registry, the current `sleeptime`/`jitter` attributes (absent until a
+successful `run` or an assignment) and the identity presented by `metadata`/`c2http` (absent until a successful
+`run`). -/
+
+structure Session where
+  client : Client := {}
+  sleeptime : Option Int := none
+  jitter : Option Int := none
+  ident : Option Identity := none
+
+inductive HStep
+  /-- `client.sleeptime = s` (what a COMMAND_SLEEP handler does) -/
+  | setSleep (s : Int)
+  /-- `client.jitter = j` -/
+  | setJitter (j : Int)
+  /-- `client.run(bconfig, dry_run=True, beacon_id=id, sleeptime=s, jitter=j, computer=…, user=…, process=…)` -/
+  | run (id s j : Int) (computer user process : Txt)
+  /-- `client.get_sleep_time()` with the uniform draw `u` -/
+  | sleep (u : Frac)
+  /-- `client.get_handlers(k)` -/
+  | getHandlers (k : Key)
+  /-- one iteration of `_beacon_loop` with `get_task()` returning `t` -/
+  | task (silent : Bool) (t : Option Int)
+  /-- a registration -/
+  | reg (r : Reg)
+  /-- read `metadata.bid`, `metadata.aes_rand`, the keys of `c2http`, `metadata.info` -/
+  | show
+
+inductive HAnswer
+  | done
+  | exc (e : PyExc)
+  | frac (f : Frac)
+  | handlers (hs : List Handler)
+  /-- events of a loop iteration and the exception that ended it, if any -/
+  | events (es : List Event) (e : Option PyExc)
+  | ident (i : Identity)
+
+/-- `get_sleep_time()` on the current attributes; a missing attribute raises AttributeError -/
+def Session.sleepTime (st : Session) (u : Frac) : Py Frac :=
+  match st.sleeptime, st.jitter with
+  | some s, some j => .ok (getSleepTime s j u)
+  | _, _ => .error .attributeError
+
+def applyStep (p : Prims) (st : Session) : HStep → Session × HAnswer
+  | .setSleep s => ({ st with sleeptime := some s }, .done)
+  | .setJitter j => ({ st with jitter := some j }, .done)
+  | .run id s j c u q =>
+    -- a raising `run` leaves metadata/c2http (the presented identity) and sleeptime/jitter as they were:
+    -- both are assigned after the last raising statement
+    match C19.run p id c u q with
+    | .error e => (st, .exc e)
+    | .ok a => ({ st with sleeptime := some s, jitter := some j, ident := some a }, .done)
+  | .sleep u =>
+    match st.sleepTime u with
+    | .ok f => (st, .frac f)
+    | .error e => (st, .exc e)
+  | .getHandlers k =>
+    let (c', hr) := C19.getHandlers st.client k
+    ({ st with client := c' }, .handlers (c'.readList hr))
+  | .task silent t =>
+    let (c', ev) := loopStep silent st.client t
+    -- the `sleep` that ends the iteration is preceded by `get_sleep_time()`
+    match st.sleepTime ⟨0, 1⟩ with
+    | .ok _ => ({ st with client := c' }, .events ev none)
+    | .error e => ({ st with client := c' }, .events ev.dropLast (some e))
+  | .reg r =>
+    match applyReg st.client r with
+    | .ok c' => ({ st with client := c' }, .done)
+    | .error e => (st, .exc e)
+  | .show =>
+    match st.ident with
+    | some a => (st, .ident a)
+    | none => (st, .exc .attributeError)
+
+def runHistory (p : Prims) (st : Session) : List HStep → Session × List HAnswer
+  | [] => (st, [])
+  | h :: hs =>
+    let (st1, a) := applyStep p st h
+    let (st', as) := runHistory p st1 hs
+    (st', a :: as)
+
+def sessionAfter (p : Prims) (st : Session) (hs : List HStep) : Session := (runHistory p st hs).1
+
+/-- the registrations contained in a history -/
+def regsOf : List HStep → List Reg
+  | [] => []
+  | .reg r :: hs => r :: regsOf hs
+  | _ :: hs => regsOf hs
+
 end C19
